@@ -72,11 +72,21 @@ def run(ctx, model):
                     ctx.violation("code-lookup:" + T.__name__, {"table": T.__name__, "code": repr(kv)},
                                   "code %r of member %s does not resolve back to a member carrying it (%s)" % (kv, n, got))
         # absent keys
-        for k in ["no_such_member_", 0x7FFF_FFFF, b"\xde\xad\xbe\xef"]:
+        # ... also every name the class or its metaclass answers `hasattr` for without its being a member (helpers,
+        # bookkeeping attributes, dunders), in three casings: membership, [] and get must tell the same story
+        member_names = {n.lower() for (n, _) in members}
+        attrish = sorted(a for a in set(dir(T)) | set(dir(type(T))) if isinstance(a, str) and a.lower() not in member_names)
+        attr_keys = [c for a in attrish for c in (a, a.upper(), a.title())]
+        for k in ["no_such_member_", 0x7FFF_FFFF, b"\xde\xad\xbe\xef"] + attr_keys:
             ctx.case("absent", (T.__name__, repr(k)))
-            ask("getitem", T, k, impl_getitem(T, k))
+            got = impl_getitem(T, k)
+            inn = k in T
+            ask("getitem", T, k, got)
             ask("get", T, k, "ok " + atom_sx(T.get(k)))
-            ask("contains", T, k, "ok T" if k in T else "ok F")
+            ask("contains", T, k, "ok T" if inn else "ok F")
+            if inn != got.startswith("ok") or (T.get(k) is not None) != inn:
+                ctx.violation("membership-inconsistent:" + T.__name__, {"table": T.__name__, "key": repr(k)},
+                              "%r in %s is %s, but [] -> %s and get -> %r" % (k, T.__name__, inn, got, T.get(k)))
     # data-type codes resolve to the type carrying the code
     from pycomm3.cip import DataTypes
     for n in DataTypes.attributes:
